@@ -6,6 +6,7 @@ import (
 	"fmt"
 	"runtime"
 	"sort"
+	"strings"
 
 	"github.com/d5/tengo/v2"
 
@@ -307,6 +308,29 @@ func c06Recursion(e *Engine, res *EpisodeResult) {
 	}
 	if lr.panicked != "" {
 		e.violate("C06.rec", "depth %d: panic reached the caller: %s", depth, lr.panicked)
+		return
+	}
+	// spread shapes: the result is the right count or an error - never a silently shortened argument list
+	if n, ok := p.Params["spreadN"]; ok {
+		res.Nontrivial = true
+		e.probe("spreadCall")
+		if lr.err == nil {
+			want := plan.Int(n).Key()
+			if !strings.Contains(lr.globals, "out="+want+";") {
+				e.violate("C06.rec:spread", "a call spreading %d arguments returned without error but out is not %d: %s", n, n, clip(lr.globals))
+			}
+			if n > int64(tengo.StackSize) {
+				e.violate("C06.rec:spread", "a call spreading %d arguments (operand stack: %d slots) completed without error", n, tengo.StackSize)
+			}
+		}
+		return
+	}
+	if k, ok := p.Params["forwardK"]; ok {
+		res.Nontrivial = true
+		e.probe("spreadForwardingRecursion")
+		if lr.err == nil && !strings.Contains(lr.globals, "out="+plan.Int(k).Key()+";") {
+			e.violate("C06.rec:spread", "recursion forwarding %d arguments by spread returned without error but out is not %d: %s", k, k, clip(lr.globals))
+		}
 		return
 	}
 	capacity := int64(tengo.MaxFrames)
